@@ -1697,3 +1697,125 @@ func (c *Ctx) c16UpdateKeepsFreeze() {
 	}
 	r.Floor("R16.12", "UnPauseChainService in manageUpdateApprove", n, 1)
 }
+
+// ---------------------------------------------------------------------------------------------------------------------
+// R20.12: lastExec is what the ordering node itself handed to the executor; the executor's progress report never moves it.
+func (c *Ctx) c20LastExecOwner() {
+	r := c.R
+	r.Rule("R20.12", "lastExec is advanced only by what the ordering node itself delivers: no store to Node.lastExec (solo and raft) takes its value from an executor report (a value reached through a *ChainState). The executor lags behind ordering (the commit channel is buffered); pulling lastExec back to a reported height makes every batch already numbered beyond it fail the height test, and their transactions stay marked as batched for ever.")
+	n := 0
+	for _, fn := range c.P.ModuleFuncs(true) {
+		pk := fn.Package().Pkg.Path()
+		if !strings.HasSuffix(pk, "pkg/order/solo") && !strings.HasSuffix(pk, "pkg/order/etcdraft") {
+			continue
+		}
+		for _, b := range fn.Blocks {
+			for _, in := range b.Instrs {
+				st, ok := in.(*ssa.Store)
+				if !ok {
+					continue
+				}
+				o, f, _, ok := core.FieldOf(st.Addr)
+				if !ok || f != "lastExec" || !strings.HasSuffix(o, ".Node") {
+					continue
+				}
+				n++
+				fromReport := core.Mentions(st.Val, func(v ssa.Value) bool {
+					return strings.Contains(v.Type().String(), "ChainState")
+				})
+				r.Check(!fromReport, "R20.12", shortFn(fn)+": store to lastExec #"+strconv.Itoa(n), c.P.Pos(st.Pos()), "the value does not come from an executor report",
+					"lastExec is set from the executor's report (ChainState): the executor may be blocks behind what ordering has already handed out - the batches numbered beyond the reported height fail the lastExec+1 test and are dropped for good, their transactions remain marked as batched and are never delivered")
+			}
+		}
+	}
+	r.Floor("R20.12", "stores to Node.lastExec in solo and raft", n, 3)
+}
+
+// ---------------------------------------------------------------------------------------------------------------------
+// R16.13: a cascade that depends on the status an object had BEFORE its status change is decided on the record read before
+// the change.
+func (c *Ctx) c16PreEventStatus() {
+	r := c.R
+	r.Rule("R16.13", "a cascade decided by the status an object had before its status change reads the record loaded before the change: in a governance entry of the contracts, a test of <record>.Status that follows the entry's own ChangeStatus call (directly or in a helper) and guards a cross-invoke is made on a record produced before that call, not on one returned by a helper that performs the change. After the change the status is always the event's target (logouting, freezing ..), so the test can never be true and the cascade - e.g. pausing the audit-admin binding proposal of a node that is logged out while binding - is silently skipped.")
+	isChange := c.throughHelpers(func(in ssa.Instruction) bool {
+		call, ok := in.(ssa.CallInstruction)
+		return ok && core.CalleeObj(call) != nil && core.CalleeObj(call).Name() == "ChangeStatus"
+	})
+	n := 0
+	for _, fn := range c.P.ModuleFuncs(true) {
+		if !strings.HasSuffix(fn.Package().Pkg.Path(), "internal/executor/contracts") || fn.Parent() != nil {
+			continue
+		}
+		changes := sites(fn, isChange)
+		if len(changes) == 0 {
+			continue
+		}
+		for _, b := range fn.Blocks {
+			ifi := core.IfOf(b)
+			if ifi == nil {
+				continue
+			}
+			bo, ok := ifi.Cond.(*ssa.BinOp)
+			if !ok || (bo.Op != token.EQL && bo.Op != token.NEQ) {
+				continue
+			}
+			var subj ssa.Value
+			for _, side := range []ssa.Value{bo.X, bo.Y} {
+				if _, f, base, ok := core.FieldOf(side); ok && f == "Status" {
+					subj = base
+				}
+			}
+			if subj == nil {
+				continue
+			}
+			// follows a status change of this function
+			after := false
+			for _, ch := range changes {
+				if core.Reach([]core.Point{core.After(ch)}, nil, nil).Has(ifi) {
+					after = true
+				}
+			}
+			if !after {
+				continue
+			}
+			// guards a cross-invoke
+			guards := false
+			for si := range b.Succs {
+				rs := core.Reach([]core.Point{{B: b.Succs[si], Idx: 0}}, nil, nil)
+				other := core.Reach([]core.Point{{B: b.Succs[1-si], Idx: 0}}, nil, nil)
+				for _, call := range core.Calls(fn) {
+					if core.CalleeObj(call) != nil && core.CalleeObj(call).Name() == "CrossInvoke" && rs.Has(call) && !other.Has(call) {
+						guards = true
+					}
+				}
+			}
+			if !guards {
+				continue
+			}
+			n++
+			// where the record comes from
+			src := core.Strip(subj)
+			if ta, ok := src.(*ssa.TypeAssert); ok {
+				src = core.Strip(ta.X)
+			}
+			if ex, ok := src.(*ssa.Extract); ok {
+				src = ex.Tuple
+			}
+			bad := ""
+			if pc, ok := src.(*ssa.Call); ok {
+				if isChange(pc) {
+					bad = "the record is the result of " + core.CalleeName(pc) + ", which performs the status change"
+				} else {
+					for _, ch := range changes {
+						if core.Reach([]core.Point{core.After(ch)}, nil, nil).Has(pc) && !core.InLoop(pc) {
+							bad = "the record is read (" + core.CalleeName(pc) + ") after the status change"
+						}
+					}
+				}
+			}
+			r.Check(bad == "", "R16.13", shortFn(fn)+": status test behind the status change #"+strconv.Itoa(n), c.P.Pos(ifi.Cond.Pos()), "the record tested was produced before the change",
+				bad+": the status compared is the one the event just set, never the one the object had before - the cascade behind the test (pausing a dependent proposal, freezing services ..) is skipped, and the dependent object is later driven by a proposal that should have been paused")
+		}
+	}
+	r.Floor("R16.13", "status tests behind a status change that guard a cross-invoke", n, 1)
+}
